@@ -1,1 +1,116 @@
-fn main(){}
+mod absop;
+mod child;
+mod conc;
+mod engine;
+mod exec;
+mod interp;
+mod model;
+mod payload;
+mod props;
+mod proto;
+
+use engine::*;
+
+fn usage() -> ! {
+    eprintln!("usage: wverif exec | run <Cxx> [--tier quick|thorough] | replay <file>");
+    std::process::exit(2)
+}
+
+fn main() {
+    let args: Vec<String> = std::env::args().collect();
+    if args.len() < 2 {
+        usage();
+    }
+    match args[1].as_str() {
+        "exec" => std::process::exit(exec::main_exec()),
+        "run" => {
+            if args.len() < 3 {
+                usage();
+            }
+            let prop = args[2].clone();
+            let mut tier = match std::env::var("VERIF_TIER").ok().as_deref() {
+                Some("thorough") => Tier::Thorough,
+                _ => Tier::Quick,
+            };
+            let mut i = 3;
+            while i < args.len() {
+                if args[i] == "--tier" && i + 1 < args.len() {
+                    tier = if args[i + 1] == "thorough" { Tier::Thorough } else { Tier::Quick };
+                    i += 1;
+                }
+                i += 1;
+            }
+            let seed: u64 = std::env::var("VERIF_SEED").ok().and_then(|s| s.parse().ok()).unwrap_or(0);
+            std::process::exit(run_prop(&prop, tier, seed));
+        }
+        "replay" => {
+            if args.len() < 3 {
+                usage();
+            }
+            let s = std::fs::read_to_string(&args[2]).expect("read replay file");
+            let body: serde_json::Value = serde_json::from_str(&s).expect("parse replay file");
+            let prop = body.get("property").and_then(|p| p.as_str()).unwrap_or("?").to_string();
+            match props::replay_any(&body) {
+                Ok(Some(msg)) => {
+                    println!("VIOLATION property={} replay={}", prop, args[2]);
+                    println!("  {}", msg);
+                    std::process::exit(1)
+                }
+                Ok(None) => {
+                    println!("OK property={} replay passes", prop);
+                    std::process::exit(0)
+                }
+                Err(e) => {
+                    println!("INCONCLUSIVE property={} {}", prop, e);
+                    std::process::exit(2)
+                }
+            }
+        }
+        _ => usage(),
+    }
+}
+
+fn run_prop(prop: &str, tier: Tier, seed: u64) -> i32 {
+    match prop {
+        "C01" => {
+            let ctx = Ctx::new(
+                "C01",
+                tier,
+                seed,
+                "exploration",
+                "proptest-generated op histories (append / batch append / read_next(true) / batch_read(budget,true)) over 1-4 topics, 3 size profiles (tiny, block-filling with entries aimed at exact block ends, >10 MiB entries), Strict and AtLeastOnce, fd and mmap, each followed by a generated drain; every read is compared with a FIFO reference model. Non-trivial = the history contains a consuming batch read issued while the cursor is inside a sealed block and the tail holds entries, or a zero-length entry returned through the batch API, or a read that crosses a block end; distinct = distinct hash of the generated case.",
+                &["payload identity is judged by (length, 64-bit content hash) computed in the child by harness code", "executor built with opt-level 2, debug assertions and overflow checks on"],
+            );
+            props::seq::c01(&ctx);
+            ctx.finish(tier.pick(40, 400))
+        }
+        "C03" => {
+            let ctx = Ctx::new(
+                "C03",
+                tier,
+                seed,
+                "exploration",
+                "proptest-generated histories dominated by batch reads with budgets aimed at the model (0, 1, len(next)±1, sum(next k)±1, arbitrary, usize::MAX) at generated cursor positions, batches of up to 2000 tiny entries; oracle: <=2000 entries, payload sum <= budget unless exactly one entry, non-empty whenever the model has an unconsumed entry. Non-trivial = budget smaller than the next entry, or the 2000 cap was hit, or the cursor sat at an exact block end with data behind it.",
+                &["progress is judged against the FIFO model; a content divergence (C01's subject) ends the case without verdict"],
+            );
+            props::seq::c03(&ctx);
+            ctx.finish(tier.pick(40, 400))
+        }
+        "C15" => {
+            let ctx = Ctx::new(
+                "C15",
+                tier,
+                seed,
+                "exploration",
+                "E1 histories (appends, batches, rejected operations, consuming reads, peeks, offset-addressed reads, reopen events) with a count probe after every operation and count-map probes; oracle: count == appended - consumed per the FIFO model (after a restart only in StrictlyAtOnce mode). Non-trivial = a count probe in a history that also has a rejected operation, a zero-length entry returned by a batch read, a restart with a tail cursor, a rotation or an offset-addressed read.",
+                &["counts after an AtLeastOnce restart are not judged (the property does not promise them)"],
+            );
+            props::seq::c15(&ctx);
+            ctx.finish(tier.pick(40, 400))
+        }
+        other => {
+            eprintln!("unknown property {}", other);
+            2
+        }
+    }
+}
